@@ -113,7 +113,9 @@ def gen_T14():
     # DisabledCommands: everywhere-entries and per-plugin entries are kept apart (repair of C14.F24)
     dc = ast.unparse(find_class(tree('src/callbacks.py'), 'DisabledCommands'))
     for frag in ('self.everywhere = CanonicalNameSet()', 'if command in self.everywhere:', 'self.everywhere.add(command)',
-                 'self.everywhere.remove(command)', 'self.d[command].remove(plugin)', 'self.d[command].add(plugin)'):
+                 'self.everywhere.remove(command)', 'self.d[command].remove(plugin)', 'self.d[command].add(plugin)',
+                 'self.d[command] = CanonicalNameSet([plugin])', 'self.d = CanonicalNameDict()', 'self.add(command, plugin)',
+                 "plugin, command = name.split('.', 1)"):
         need(frag in dc, 'DisabledCommands: shape changed (missing %r)' % frag)
     need('= None' not in dc.replace('plugin=None', ''), 'DisabledCommands: the d[command] = None representation is back')
     # the 'ignored' tag (Utilities.ignore): noReply on a not-yet-evaluated proxy pops the bracket and clears the tag
